@@ -10,6 +10,10 @@
 //!        answered as `ok <letters>`
 //!   `c12.count <is> i<members>` / `c12.spec.count …`: the `room_member_count` condition whose `is`
 //!        is the given string, in a room of that many members → `t` / `f` / `err` (condition rejected)
+//!   `c12.get <event> <path>` / `c12.spec.get …`: `FlattenedJson::from_raw(event).get(path)` →
+//!        `none` | `ok <value>` (`n`, `t`/`f`, `i<n>`, `s<hex>`, `a<k> scalars…`, `o0` = empty object)
+//!   `c12.mentions <event>` / `c12.spec.mentions …`: `contains_mentions` → `t` / `f`
+//!   `c12.cond <condition> <ctx> <event>` / `c12.spec.cond …`: `PushCondition::applies` → `t` / `f`
 //!   `c12.match <ruleset> <ctx> <event>` / `c12.spec.match …` → `none` | `ok <kind> <rule id>`
 //!        ruleset = `a5` of rule arrays (override, content, room, sender, underride);
 //!        conditional rule `a3 <enabled> <id> a<k> cond…`, patterned `a3 <enabled> <id> <pattern>`,
@@ -26,9 +30,9 @@ use js_int::{Int, UInt};
 use ruma_common::{
     power_levels::NotificationPowerLevels,
     push::{
-        Action, AnyPushRuleRef, ComparisonOperator, ConditionalPushRule, ConditionalPushRuleInit,
-        FlattenedJson, PatternedPushRule, PatternedPushRuleInit, PushCondition,
-        PushConditionPowerLevelsCtx, PushConditionRoomCtx, RoomMemberCountIs, Ruleset,
+        Action, AnyPushRuleRef, ConditionalPushRule, ConditionalPushRuleInit,
+        FlattenedJson, FlattenedJsonValue, PatternedPushRule, PatternedPushRuleInit, PushCondition,
+        PushConditionPowerLevelsCtx, PushConditionRoomCtx, Ruleset,
         ScalarJsonValue, SimplePushRule, SimplePushRuleInit, Tweak,
     },
     serde::Raw,
@@ -175,6 +179,115 @@ fn run_count(is: &str, n: u64) -> Outcome {
 }
 
 // ---------------------------------------------------------------------------------------------
+// flattened events and single conditions
+
+fn scalar_tok(v: &ScalarJsonValue) -> String {
+    match v {
+        ScalarJsonValue::Null => "n".into(),
+        ScalarJsonValue::Bool(b) => tf(*b).to_string(),
+        ScalarJsonValue::Integer(i) => format!("i{i}"),
+        ScalarJsonValue::String(s) => h_util::stok(s),
+    }
+}
+
+fn fval_tok(v: &FlattenedJsonValue) -> String {
+    match v {
+        FlattenedJsonValue::Null => "n".into(),
+        FlattenedJsonValue::Bool(b) => tf(*b).to_string(),
+        FlattenedJsonValue::Integer(i) => format!("i{i}"),
+        FlattenedJsonValue::String(s) => h_util::stok(s),
+        FlattenedJsonValue::Array(a) => {
+            let mut out = format!("a{}", a.len());
+            for x in a {
+                out.push(' ');
+                out.push_str(&scalar_tok(x));
+            }
+            out
+        }
+        FlattenedJsonValue::EmptyObject => "o0".into(),
+    }
+}
+
+/// What the property path addresses, written from the spec: the leaf whose keys, escaped and joined
+/// with `.`, spell the path; numbers that are not canonical-JSON integers are not properties; an
+/// array is its scalar elements.
+fn ref_leaf_tok(v: &Value) -> Option<String> {
+    fn scalar(v: &Value) -> Option<String> {
+        Some(match v {
+            Value::Null => "n".into(),
+            Value::Bool(b) => tf(*b).to_string(),
+            Value::Number(n) => {
+                let i = n.as_i64()?;
+                if i.unsigned_abs() > (1 << 53) - 1 {
+                    return None;
+                }
+                format!("i{i}")
+            }
+            Value::String(s) => h_util::stok(s),
+            _ => return None,
+        })
+    }
+    match v {
+        Value::Array(a) => {
+            let xs: Vec<String> = a.iter().filter_map(scalar).collect();
+            let mut out = format!("a{}", xs.len());
+            for x in xs {
+                out.push(' ');
+                out.push_str(&x);
+            }
+            Some(out)
+        }
+        Value::Object(m) if m.is_empty() => Some("o0".into()),
+        Value::Object(_) => None,
+        x => scalar(x),
+    }
+}
+
+/// `FlattenedJson::from_raw(event).get(path)` (and `get_str`, which must agree with it).
+fn run_get(ev: &Value, path: &str) -> Outcome {
+    let flat = FlattenedJson::from_raw(&raw(ev));
+    let got = flat.get(path);
+    let imp = match got {
+        None => "none".to_owned(),
+        Some(v) => format!("ok {}", fval_tok(v)),
+    };
+    let mut t3 = vec![];
+    if flat.get_str(path) != got.and_then(|v| v.as_str()) {
+        t3.push(format!("get_str({path:?}) differs from get({path:?}).as_str()"));
+    }
+    let mut ls = vec![];
+    gen::leaves(ev, None, &mut ls);
+    let want = ls.iter().rev().find(|(p, _)| p == path).and_then(|(_, v)| ref_leaf_tok(v));
+    let want = want.map_or("none".to_owned(), |t| format!("ok {t}"));
+    if want != imp {
+        t3.push(format!("property path {path:?}: the event has {want}, FlattenedJson::get returns {imp}"));
+    }
+    Outcome { imp, t3 }
+}
+
+/// `FlattenedJson::contains_mentions`.
+fn run_mentions(ev: &Value) -> Outcome {
+    let flat = FlattenedJson::from_raw(&raw(ev));
+    let b = flat.contains_mentions();
+    let mut t3 = vec![];
+    let mut ls = vec![];
+    gen::leaves(ev, None, &mut ls);
+    let want = ls.iter().any(|(p, v)| {
+        ref_leaf_tok(v).is_some() && (p == "content.m\\.mentions" || p.starts_with("content.m\\.mentions."))
+    });
+    if want != b {
+        t3.push(format!("the event {} a property at or below content.m\\.mentions, contains_mentions says {b}", if want { "has" } else { "has no" }));
+    }
+    Outcome { imp: tf(b).to_string(), t3 }
+}
+
+/// `PushCondition::applies` on its own.
+fn run_cond(cond: &PushCondition, ctx: &PushConditionRoomCtx, ev: &Value) -> Outcome {
+    let flat = FlattenedJson::from_raw(&raw(ev));
+    Outcome::new(tf(cond.applies(&flat, ctx)).to_string())
+}
+
+// ---------------------------------------------------------------------------------------------
 // rulesets
 
 fn str_of(v: &Value) -> Option<&str> {
@@ -191,40 +304,38 @@ fn scalar_of(v: &Value) -> Option<ScalarJsonValue> {
     })
 }
 
+/// Conditions are built the way they arrive: deserialized from their JSON form by the real
+/// `PushCondition` deserializer (`kind` dispatch, `RoomMemberCountIs::from_str`, `ScalarJsonValue`).
 fn cond_of(v: &Value) -> Option<PushCondition> {
     let a = v.as_array()?;
-    Some(match (str_of(a.first()?)?, a.len()) {
+    let j = match (str_of(a.first()?)?, a.len()) {
         ("event_match", 3) => {
-            PushCondition::EventMatch { key: str_of(&a[1])?.into(), pattern: str_of(&a[2])?.into() }
+            json!({"kind": "event_match", "key": str_of(&a[1])?, "pattern": str_of(&a[2])?})
         }
-        ("contains_display_name", 1) => PushCondition::ContainsDisplayName,
+        ("contains_display_name", 1) => json!({"kind": "contains_display_name"}),
         ("room_member_count", 3) => {
-            let prefix = match str_of(&a[1])? {
-                "==" => ComparisonOperator::Eq,
-                "<" => ComparisonOperator::Lt,
-                ">" => ComparisonOperator::Gt,
-                ">=" => ComparisonOperator::Ge,
-                "<=" => ComparisonOperator::Le,
-                _ => return None,
-            };
+            let op = str_of(&a[1])?;
+            if !["==", "<", ">", ">=", "<="].contains(&op) {
+                return None;
+            }
             let count = UInt::try_from(a[2].as_u64()?).ok()?;
-            PushCondition::RoomMemberCount { is: RoomMemberCountIs { prefix, count } }
+            json!({"kind": "room_member_count", "is": format!("{op}{count}")})
         }
         ("sender_notification_permission", 2) => {
-            PushCondition::SenderNotificationPermission { key: str_of(&a[1])?.into() }
+            json!({"kind": "sender_notification_permission", "key": str_of(&a[1])?})
         }
         ("event_property_is", 3) => {
-            PushCondition::EventPropertyIs { key: str_of(&a[1])?.into(), value: scalar_of(&a[2])? }
+            scalar_of(&a[2])?;
+            json!({"kind": "event_property_is", "key": str_of(&a[1])?, "value": a[2]})
         }
-        ("event_property_contains", 3) => PushCondition::EventPropertyContains {
-            key: str_of(&a[1])?.into(),
-            value: scalar_of(&a[2])?,
-        },
-        ("custom", 1) => {
-            serde_json::from_value(json!({"kind": "org.example.unknown", "x": 1})).ok()?
+        ("event_property_contains", 3) => {
+            scalar_of(&a[2])?;
+            json!({"kind": "event_property_contains", "key": str_of(&a[1])?, "value": a[2]})
         }
+        ("custom", 1) => json!({"kind": "org.example.unknown", "x": 1}),
         _ => return None,
-    })
+    };
+    serde_json::from_value(j).ok()
 }
 
 /// Each rule carries its own (kind, id) as a sound tweak so that `get_actions` names the rule too.
@@ -419,6 +530,16 @@ fn run_match(rs: &Ruleset, ctx: &PushConditionRoomCtx, ev: &Value) -> Outcome {
             }
         }
     }
+    // the owning iterator yields the same rules in the same order, and owned rules apply alike
+    let owned: Vec<_> = rs.clone().into_iter().collect();
+    let same_seq = owned.len() == all.len()
+        && owned.iter().zip(&all).all(|(o, r)| kind_of(&o.as_ref()) == kind_of(r) && o.rule_id() == r.rule_id());
+    if !same_seq {
+        t3.push("Ruleset::into_iter and Ruleset::iter yield different rule sequences".into());
+    }
+    if let Some(o) = owned.iter().zip(&all).find(|(o, r)| o.applies(&flat, ctx) != r.applies(&flat, ctx)) {
+        t3.push(format!("AnyPushRule::applies and AnyPushRuleRef::applies differ on rule {}", o.0.rule_id()));
+    }
     // get_actions names the same rule
     let acts = rs.get_actions(&raw_ev, ctx);
     let sound = acts.iter().find_map(|a| a.sound()).map(str::to_owned);
@@ -552,6 +673,40 @@ fn run_uncached(req: &str) -> Outcome {
                 return Outcome::bad();
             };
             run_count(&is, n)
+        }
+        "c12.get" | "c12.spec.get" => {
+            let mut it = toks[1..].iter();
+            let (Some(ev), Some(path)) = (h_util::parse_tokens(&mut it), it.next().and_then(|t| unhex_tok(t)))
+            else {
+                return Outcome::bad();
+            };
+            if it.next().is_some() || !ev.is_object() {
+                return Outcome::bad();
+            }
+            run_get(&ev, &path)
+        }
+        "c12.mentions" | "c12.spec.mentions" => {
+            let mut it = toks[1..].iter();
+            let Some(ev) = h_util::parse_tokens(&mut it) else { return Outcome::bad() };
+            if it.next().is_some() || !ev.is_object() {
+                return Outcome::bad();
+            }
+            run_mentions(&ev)
+        }
+        "c12.cond" | "c12.spec.cond" => {
+            let mut it = toks[1..].iter();
+            let (Some(c), Some(ctx), Some(ev)) =
+                (h_util::parse_tokens(&mut it), h_util::parse_tokens(&mut it), h_util::parse_tokens(&mut it))
+            else {
+                return Outcome::bad();
+            };
+            if it.next().is_some() {
+                return Outcome::bad();
+            }
+            let (Some(c), Some(ctx)) = (cond_of(&c), ctx_of(&ctx)) else {
+                return Outcome::bad();
+            };
+            run_cond(&c, &ctx, &ev)
         }
         "c12.match" | "c12.spec.match" => {
             let mut it = toks[1..].iter();
